@@ -122,6 +122,16 @@ func c09Run(ctx *core.Ctx) {
 								c.Steps = append(c.Steps, c09Step{Kind: "b64", Bytes: c09Octets[r.Intn(len(c09Octets))]})
 							}
 							c.IRBytes = c09Octets[r.Intn(len(c09Octets)-1)]
+							if rep == 2 {
+								// long values: an initial response whose AUTH line exceeds 512 octets, long
+								// later responses and challenges
+								long := [][]byte{[]byte(strings.Repeat("Q", 400)), append([]byte{0, 255, 1}, []byte(strings.Repeat("\x00\xfe", 350))...)}
+								c.IRBytes = long[nch%2]
+								if nch > 0 {
+									c.Steps[0].Bytes = long[(nch+1)%2]
+									c.Challenges[nch-1] = long[nch%2]
+								}
+							}
 							emit(c)
 						}
 					}
